@@ -13,6 +13,27 @@ CLAIMED = {
         "contract-based deductive verification: AST symbolic execution of the real functions to VCs, discharged by z3/cvc5",
         "DESIGN.md §4 C03",
     ),
+    "C01": (
+        "proof",
+        "Every calculator class is shown to refine the calendar interface contract CAL: year starts, year/month lengths and month starts for every year of [minY-1, maxY+1] (finite ground case split, every year enumerated), the day-of-year split for every year and day (symbolic), the first-guess year bound, and bit packing (symbolic). The generic calculator bodies (_get_year with loop invariants and variants, day<->date conversion, validation), CalendarSystem and LocalDate (construction, accessors, day number, with_calendar, weekday) are verified once against CAL with a symbolic calendar, so day->date->day, date->day->date, ordering and range rejection hold for every day of every calendar without enumerating days.",
+        "Trusted: A1-A4; the axioms of CAL used by client proofs are exactly the per-class obligations (AX-MONO is the telescoping sum of AX-DIY, an induction not mechanised). Ground obligations are evaluated by CPython on the identity-checked real functions with interpreter cross-checks. Known finding: Badi does not support year 0.",
+        "contract-based deductive verification: AST symbolic execution to VCs (z3/cvc5) against an abstract calendar interface contract; finite ground case split per year",
+        "DESIGN.md §4 C01",
+    ),
+    "C02": (
+        "proof",
+        "For the 17 arithmetic calendar ids the real year starts, leap years, month lengths and month starts equal spec functions transcribed from the published algorithms (Rata Die Gregorian/Julian, Coptic, tabular Islamic leap sets, Dershowitz-Reingold Hebrew molad formulation, Persian 33-year and Birashk cycles) for every supported year (ground case split over all years); the weekday formula is proved for all day numbers; with C01's contracts this fixes the day every date denotes.",
+        "Trusted: A1, A2, A5 (the Gregorian spec is compared with datetime.date for every year start on each run); the spec functions themselves (specs/calendars.py) are my transcription of the published algorithms. Persian arithmetic is compared from year 475 only, as the property states.",
+        "contract-based deductive verification: code == published-algorithm spec function, ground case split over every year + symbolic VCs",
+        "DESIGN.md §4 C02",
+    ),
+    "C10": (
+        "proof",
+        "LocalTime constructors/factories (raise iff a field is out of range), all accessors (exact decomposition), plus_<unit> for every integer amount (wraps modulo 24h) and _TimePeriodField day carries are symbolically executed from the real source and every VC is discharged for all inputs.",
+        "Trusted: A1-A4. For |amount| >= 10**27 the Decimal-based division is only approximate (A3): the contract then proves normalisation and a huge carry (or decimal.InvalidOperation), not exactness.",
+        "contract-based deductive verification: AST symbolic execution of the real functions to VCs, discharged by z3/cvc5",
+        "DESIGN.md §4 C10",
+    ),
 }
 
 NOT_YET = {}
